@@ -72,6 +72,11 @@ def gen_spec(r):
         nodes.append([k, []])
 
     def scalar():
+        # dates and datetimes are not exempt from anchoring: reusing one object makes '&id001' / '*id001' scalars
+        shared = [i for i, n in enumerate(nodes) if n[0] in ('d', 'dt')]
+        if shared and r.random() < 0.25:
+            classes.add('shared_scalar_object')
+            return r.choice(shared)
         n, c = V._scalar(r)
         nodes.append(n)
         return len(nodes) - 1
@@ -133,11 +138,11 @@ def digest(x):
 def set_insensitive_equal(t1, t2):
     """F12 classifier: the two texts denote the same node graph when !!set mappings are compared unordered."""
     def canon(node, seen):
+        if isinstance(node, yaml.ScalarNode):
+            return ('s', node.tag, node.value)          # by value: where an anchored scalar sits inside a permuted set must not matter
         if id(node) in seen:
             return ('@', seen[id(node)])
         seen[id(node)] = len(seen)
-        if isinstance(node, yaml.ScalarNode):
-            return ('s', node.tag, node.value)
         if isinstance(node, yaml.SequenceNode):
             return ('q', node.tag, tuple(canon(c, seen) for c in node.value))
         items = [(canon(k, seen), canon(v, seen)) for k, v in node.value]
@@ -236,6 +241,41 @@ def stream_position_check(vs_list, opts, perm, ctx, case):
                 break
 
 
+def mixed_keys_case(r, ctx, i):
+    """Keys that are not mutually comparable: the sorting falls back to insertion order (the documented mechanism), and the
+    result must still be a fixed point - also for mappings large enough for the sort to make partial progress before it fails."""
+    n = r.choice([3, 5, 8, 20, 64, 65, 70, 130])
+    keys = []
+    seen = set()
+    while len(keys) < n:
+        k = r.choice([r.randint(-500, 500), 'k%d' % r.randint(0, 500), r.randint(0, 50) + 0.5, None, True, 's'])
+        if k not in seen and not (k is True and 1 in seen) and not (k == 1 and True in seen) and not (k is False):
+            seen.add(k)
+            keys.append(k)
+    if all(isinstance(k, (int, float)) and not isinstance(k, bool) for k in keys) or all(isinstance(k, str) for k in keys):
+        keys.append(None if None not in seen else 'zz')
+    d = {k: j for j, k in enumerate(keys)}
+    try:
+        sorted(d)
+        return
+    except TypeError:
+        pass
+    for dname in yamlapi.loaders(DUMPERS):
+        lname = 'CSafeLoader' if dname.startswith('C') else 'SafeLoader'
+        case = {'mixed_keys': [repr(k) for k in keys][:80], 'D': dname}
+        ctx.crumb(case)
+        t_sorted = dump(d, dname, {}, sort_keys=True)
+        t_plain = dump(d, dname, {}, sort_keys=False)
+        ctx.stat('mixed_key_checks')
+        if t_sorted != t_plain:
+            ctx.violation(case, {'what': 'keys that cannot be sorted are not written in insertion order', 'sorted_text': t_sorted[:300], 'insertion_text': t_plain[:300]}, None)
+            continue
+        back = yaml.load(t_sorted, Loader=getattr(yaml, lname))
+        t2 = dump(back, dname, {}, sort_keys=True)
+        if t2 != t_sorted:
+            ctx.violation(case, {'what': 'dump(load(dump(x))) differs from dump(x) for keys that cannot be sorted', 'first': t_sorted[:300], 'second': t2[:300]}, None)
+
+
 def run(spec, ctx):
     seed = spec['seed']
     k = spec['shard']
@@ -261,6 +301,9 @@ def run(spec, ctx):
         if i % 4 == k % 4:
             others = [case_for(seed, i + 1)[0], case_for(seed, i + 2)[0]]
             stream_position_check([others[0], vs, others[1]][:2 + (i % 2)], opts, k * 7919 + i, ctx, dict(case, stream_of=[i + 1, i, i + 2][:2 + (i % 2)]))
+    r2 = random.Random(core.h64('C16mixed', seed, k))
+    for i in range(60):
+        mixed_keys_case(r2, ctx, i)
     ctx.note('digests', {'shard': k, 'hashseed': spec.get('hashseed'), 'offset': off, 'rows': digests, 'seed': seed})
 
 
